@@ -99,3 +99,29 @@ def _gen_copy(rng):
 
 CONTRACTS[TI + ":Instance.__new__"].gen = _gen_block
 CONTRACTS[TI + ":Instance.__new__#copy-check"].gen = _gen_copy
+
+
+# ---- every tour of a permutation lies within [sum of row minima, sum of row maxima]  (C05 bounds clause)
+from pyvc.spec import axiom, lemma  # noqa: E402
+import contracts.tsp  # noqa: E402,F401  (cyc, perm)
+
+spec("psum_max(m, x, n, k)", "0 if k <= 0 else psum_max(m, x, n, k - 1) + rmax(m, x[k - 1], n)", ptypes=["arr2", "arr1", "int", "int"])
+spec("psum_min(m, x, n, k)", "0 if k <= 0 else psum_min(m, x, n, k - 1) + rmin(m, x[k - 1], n)", ptypes=["arr2", "arr1", "int", "int"])
+axiom("perm_sum_rmax", {"m": "arr2", "x": "arr1", "n": "int"}, ["n >= 1", "perm(x, n)"],
+      "psum_max(m, x, n, n) == srmax(m, n, n) and psum_min(m, x, n, n) == srmin(m, n, n)",
+      note="A3 permutation-sum lemma (sum_k f(x[k]) = sum_c f(c) for a permutation x): Mathlib Equiv.sum_comp, "
+           "design_round/A3.lean (Lean 4.33, checked in the design round; re-checked by `./check C05 --tier thorough`)")
+lemma("rmax_ge", {"m": "arr2", "i": "int", "j": "int", "c": "int"}, ["0 <= c", "c < j", "c != i"],
+      "m[i, c] <= rmax(m, i, j)", induct="j", base="c + 1")
+lemma("rmin_le", {"m": "arr2", "i": "int", "j": "int", "c": "int"}, ["0 <= c", "c < j", "c != i"],
+      "m[i, c] >= rmin(m, i, j)", induct="j", base="c + 1")
+_src = "(x[k - 2] if k >= 2 else x[n - 1])"
+lemma("cyc_le_max", {"d": "arr2", "x": "arr1", "n": "int", "k": "int"}, ["n >= 2", "k <= n", "perm(x, n)"],
+      "cyc(d, x, n, k) <= rmax(d, x[n - 1], n) + psum_max(d, x, n, k - 1)", induct="k", base="1",
+      uses=[f"rmax_ge(d, {_src}, n, x[k - 1])"])
+lemma("cyc_ge_min", {"d": "arr2", "x": "arr1", "n": "int", "k": "int"}, ["n >= 2", "k <= n", "perm(x, n)"],
+      "cyc(d, x, n, k) >= rmin(d, x[n - 1], n) + psum_min(d, x, n, k - 1)", induct="k", base="1",
+      uses=[f"rmin_le(d, {_src}, n, x[k - 1])"])
+lemma("tour_within_instance_bounds", {"d": "arr2", "x": "arr1", "n": "int"}, ["n >= 2", "perm(x, n)"],
+      "srmin(d, n, n) <= cyc(d, x, n, n) and cyc(d, x, n, n) <= srmax(d, n, n)",
+      uses=["cyc_le_max(d, x, n, n)", "cyc_ge_min(d, x, n, n)", "perm_sum_rmax(d, x, n)"])
